@@ -22,8 +22,10 @@ NCPU = 16
 
 # per-property configuration: cases are per worker
 CONF = {
-    "C17": dict(level="exploration", workers=16, quick=dict(cases=2500, size=100), thorough=dict(cases=60000, size=150),
+    "C17": dict(level="exploration", workers=16, quick=dict(cases=8000, size=100), thorough=dict(cases=150000, size=150),
                 fuzz=[]),
+    "C19": dict(level="exploration", workers=16, quick=dict(cases=10000, size=100), thorough=dict(cases=400000, size=100),
+                fuzz=[dict(name="fz_url", quick_runs=400000, thorough_runs=20000000, max_len=300, dict="fuzz/url.dict")]),
 }
 
 ASSUME_COMMON = [
